@@ -175,7 +175,40 @@ def sub_family(mode: str, version: int, thorough: bool = False) -> List[Tuple[st
     # main's own variables and pending operands around a recursive call
     add("main-pending", ("Seq", ("Store", "mv", M), ("Return", ("Bin", "Minus", ("Bin", "Add", ("Load", "mv"), ("Call", "f", N)), ("Load", "mv")))),
         {"f": _sub([("val", "n")], "u", ("If", P, ("Bin", "Add", ("Int", 1), ("Call", "f", dec)), ("Int", 0)))}, {"mv": {"t": "u"}})
+    out.extend(trailing_family(mode, version, e))
     return [x for x in out if x is not None]
+
+
+def trailing_family(mode, version, e):
+    """routines whose LAST expression is a conditional construct with every mixture of arms that
+    complete normally / return / exit the program (the compiler must close each routine exactly
+    where control can leave it), followed in the layout by another routine"""
+    out = []
+    arms_n = {"tag": lambda k: e.tag(70 + k), "ret": lambda k: ("Return",), "rej": lambda k: ("Reject",)}
+    arms_u = {"val": lambda k: ("Int", 10 + k), "ret": lambda k: ("Return", ("Int", 20 + k)), "rej": lambda k: ("Reject",)}
+    g = {"params": [], "ret": "n", "body": e.tag(79)}
+    for kind, arms in (("n", arms_n), ("u", arms_u)):
+        names = sorted(arms)
+        for n in (2, 3):
+            for combo in itertools.product(names, repeat=n):
+                if kind == "u" and all(c != "val" for c in combo) and False:
+                    continue
+                conds = [e.u(i) for i in range(n)]
+                built = [arms[c](i) for i, c in enumerate(combo)]
+                shapes = {"cond": ("Cond",) + tuple((conds[i], built[i]) for i in range(n)),
+                          "ifchain": ("IfChain", tuple((conds[i], built[i]) for i in range(n - 1)), built[n - 1])}
+                if n == 2:
+                    shapes["ifelse"] = ("If", conds[0], built[0], built[1])
+                    if kind == "n":
+                        shapes["ifonly"] = ("If", conds[0], built[0])
+                for sname, body in shapes.items():
+                    f = {"params": [], "ret": kind, "body": ("Seq", e.tag(60), body)}
+                    if kind == "n":
+                        main = ("Seq", ("Call", "f"), e.tag(61), ("Call", "g"), ("Return", ("Int", 1)))
+                    else:
+                        main = ("Seq", ("Call", "g"), ("Return", ("Bin", "Add", ("Call", "f"), ("Int", 1))))
+                    out.append(("sub:trail:%s:%s:%s" % (kind, sname, "-".join(combo)), prog(mode, main, {}, {"f": f, "g": g}), {}))
+    return out
 
 
 def sub_options(version: int, thorough: bool):
